@@ -53,8 +53,9 @@ class C05(C.PipelineCheck):
     def bounds(self, tier):
         q = tier != 'thorough'
         return {
-            'skeletons': 'every chain of <=2 constructor contexts from {%s} around one leaf (depth <=2 exhaustively%s), at each of the five sites, both modes' % (
-                ', '.join(QUICK_CTX if q else sorted(CTX)), '' if q else '; depth 3 for one representative context per renderer class'),
+            'skeletons': ('chains of <=2 constructor contexts from {%s} around one leaf: every single context, every context under each of {opt, vec, hmap-v, tup2-1, result}, '
+                          'and Option / & under every context' % ', '.join(QUICK_CTX)) if q else
+                         ('every chain of <=2 constructor contexts from {%s} around one leaf (depth <=2 exhaustively), depth 3 for one representative context per renderer class' % ', '.join(sorted(CTX))),
             'leaves': 'symbolic type name of %s characters [A-Za-z][A-Za-z0-9]* (so every numeric width, str, bool, String and custom names arise), plus the unit type' % (list(LEAF_LENS['quick' if q else 'thorough']),),
             'reading': 'TS types read from types.ts (Params/struct members), commands.ts (Promise<..>), events.ts (handler payload); in zod mode parameter and '
                        'field positions hold Zod schemas and are compared by C10, the TS positions (return, channel, payload) are compared here',
@@ -70,7 +71,12 @@ class C05(C.PipelineCheck):
     def scenarios(self, tier):
         q = tier != 'thorough'
         ctxs = QUICK_CTX if q else sorted(CTX)
-        chains = [()] + [(a,) for a in ctxs] + [(a, b) for a in ctxs for b in ctxs]
+        if q:
+            rep = ['opt', 'vec', 'hmap-v', 'tup2-1', 'result']
+            chains = [()] + [(a,) for a in ctxs] + [(a, b) for a in rep for b in ctxs] + [(a, 'opt') for a in ctxs if a not in rep] + \
+                     [(a, 'ref') for a in ctxs if a not in rep]
+        else:
+            chains = [()] + [(a,) for a in ctxs] + [(a, b) for a in ctxs for b in ctxs]
         if not q:
             rep = ['opt', 'vec', 'hmap-v', 'tup2-1', 'result']
             chains += [(a, b, c) for a in rep for b in rep for c in rep]
